@@ -397,6 +397,54 @@ def struct_items(thorough, rnd):
     return list(dict.fromkeys((a, tuple(map(tuple, b)), c, d) for a, b, c, d in items))
 
 
+# ---------------------------------------------------------------- callables as users write them
+def _callables():
+    """PyFunction over callables that hand back what they were given, or tuples: (name, n, m, callable, table)."""
+    out = []
+    for n in (1, 2, 3):
+        rows = [bits_of(j, n) for j in range(1 << n)]
+        out.append((f"identity-returns-its-argument/{n}", n, n, (lambda x: x), [[r[k] for r in rows] for k in range(n)]))
+        out.append((f"identity-tuple/{n}", n, n, (lambda x: tuple(x)), [[r[k] for r in rows] for k in range(n)]))
+    fa = lambda x: (x[0] ^ x[1] ^ x[2], (x[0] and x[1]) or (x[2] and (x[0] ^ x[1])))  # noqa: E731
+    rows = [bits_of(j, 3) for j in range(8)]
+    out.append(("full-adder-tuple/3", 3, 2, fa, [[bool(fa(r)[k]) for r in rows] for k in range(2)]))
+    maj = lambda x: [sum(x) >= 2]  # noqa: E731
+    out.append(("majority-list/3", 3, 1, maj, [[bool(maj(r)[0]) for r in rows]]))
+    sw = lambda x: (x[1], x[0])  # noqa: E731
+    rows2 = [bits_of(j, 2) for j in range(4)]
+    out.append(("swap-tuple/2", 2, 2, sw, [[bool(sw(r)[k]) for r in rows2] for k in range(2)]))
+    return out
+
+
+def callable_unit(p, item, tier, seed):
+    name = item
+    _, n, m, fn, table = [c for c in _callables() if c[0] == name][0]
+    T = [[z3.BoolVal(bool(v)) for v in r] for r in table]
+    for qname, call, spec in queries(n, m):
+        p.case(("c12c", name, qname), sample=f"PyFunction({name}).{qname}" if len(p.samples) < 3 else None)
+        try:
+            res = call(PyFunction(fn, input_size=n, output_size=m))
+            if isinstance(res, (list, tuple)) and spec[0] in ("vector", "table"):
+                res = [list(r) if isinstance(r, (list, tuple)) else r for r in res] if spec[0] == "table" else list(res)
+            wrong = z3.is_true(z3.simplify(wrong_term(T, n, spec, res)))
+            what = f"answered {res}"
+        except Exception as e:  # noqa: BLE001
+            wrong, what = True, f"raised {type(e).__name__}: {e}"
+        p.queries["sat" if wrong else "unsat"] += 1
+        if wrong:
+            p.violation(f"function:PyFunction:{qname.split('(')[0].split('[')[0]}:callable", f"PyFunction over {name} (table {table}): {qname} {what}, which is not the definition",
+                        REPLAY_PRELUDE + "from checks import c12\nimport z3\nfrom cirbo.core.python_function import PyFunction\n" + f"name={name!r}; qname={qname!r}\n"
+                        "_, n, m, fn, table = [c for c in c12._callables() if c[0]==name][0]\n"
+                        "T=[[z3.BoolVal(bool(v)) for v in r] for r in table]\n"
+                        "q=[q for q in c12.queries(n,m) if q[0]==qname][0]\n"
+                        "try:\n    res=q[1](PyFunction(fn, input_size=n, output_size=m))\n"
+                        "    if isinstance(res,(list,tuple)) and q[2][0]=='vector': res=list(res)\n"
+                        "    if isinstance(res,(list,tuple)) and q[2][0]=='table': res=[list(r) for r in res]\n"
+                        "    wrong=z3.is_true(z3.simplify(c12.wrong_term(T, n, q[2], res)))\nexcept Exception as e:\n    print(type(e).__name__, e); wrong=True\n"
+                        "print(qname, 'wrong' if wrong else 'right'); sys.exit(1 if wrong else 0)\n")
+            return
+
+
 # ---------------------------------------------------------------- model completion
 def completion_unit(p, item, tier, seed):
     n, m, mask = item  # mask: tuple of (k,j) don't-care positions
@@ -620,6 +668,8 @@ def run(rep, tier, seed, only=None):
                 k = 1 if (n, m) in ((1, 1), (2, 1), (1, 2)) else (6 if (n, m) != (3, 2) else 16)
                 items += [(n, m, rname, (i, k)) for i in range(k)]
         rep.pmap(shape_unit, items)
+    if sub("callable"):
+        rep.pmap(callable_unit, [c[0] for c in _callables()])
     if sub("struct"):
         rep.pmap(struct_unit, struct_items(thorough, random.Random(seed + 5)))
     if sub("define"):
